@@ -319,6 +319,36 @@ func c04run(idx int) run.Result {
 			return res
 		}
 	}
+	// a reader that stalls in the middle of one reply for longer than any write deadline and then reads on:
+	// whatever the server does about the timed-out write, the bytes the client ends up with are complete frames,
+	// apart from the cut frame if that is the last thing ever written
+	if nw := len(pr.Snap.Writes); nw > 0 {
+		rs := rng.New(c04.seed, rng.Str("C04stall"), uint64(idx))
+		at := 1 + rs.Intn(nw)
+		keep := rs.Intn(pr.Snap.Writes[at-1].N + 1)
+		pr3 := runPipe(mkServer(), c.Reqs, chunkAt(stream, ends), sconn.Script{End: sconn.EOF, StallWriteAt: at, StallWriteKeep: keep})
+		if pr3.Panic != "" || pr3.TimedOut {
+			res.Inconclusive = "stalled-reader run did not complete"
+			return res
+		}
+		res.Count("stalled_reader_runs", 1)
+		res.Count("write_deadlines_armed", int64(pr3.Snap.WriteDeadlines))
+		cut := -1
+		for i, w := range pr3.Snap.Writes {
+			if w.Timeout {
+				cut = i
+				res.Count("writes_cut_by_deadline", 1)
+			} else if cut >= 0 && w.N > 0 {
+				_, _, rest3, bad3, off3 := resp.DecodeAll(pr3.Snap.Out)
+				if bad3 != "" || rest3 != 0 {
+					res.Violate("C04:"+c.Kind+":write-after-cut-frame", "everything written is a concatenation of complete, valid RESP values, also when a reply write is cut short by a write deadline (slow reader)",
+						fmt.Sprintf("write %d timed out after %d of its bytes, yet %d more bytes were written at offset %d; the client reads %q (decoder: %q at %d)", cut+1, pr3.Snap.Writes[cut].N, w.N, w.Off, clipS(string(pr3.Snap.Out[pr3.Snap.Writes[cut].Off:]), 120), bad3, off3),
+						desc(map[string]any{"stall_write": at, "stall_keep": keep, "out_hex": hexClip(pr3.Snap.Out, 600)}))
+					return res
+				}
+			}
+		}
+	}
 	if idx%151 == 0 {
 		res.Sample = desc(map[string]any{"out_hex": hexClip(out, 200)})
 	}
@@ -375,7 +405,7 @@ func init() {
 	run.Register(&run.Prop{
 		ID: "C04", Level: "exploration",
 		Rule: func(tier string) string {
-			return "case = one scripted connection, requests delivered one per chunk, in three rotating kinds: (toplevel) 1..5 client values of every RESP type at top level - status, error, integer, bulk, null bulk, empty/null array, null/non-bulk/nested command names - and command arrays whose name and arguments carry CR, LF, CRLF+forged frames and arbitrary bytes; (handler-result) a command whose handler call returns each message type with hostile payload, nil message, errors with hostile text, message+error, arrays with status/error elements, nested arrays, an array message built without an array; (example-store) hostile values written to the bundled example store and read back with every read command. Oracle: the whole output decodes under an independent strict RESP2 decoder with nothing left over; the bytes written between two consecutive would-block reads are exactly one frame (or none and the connection is closed); a trailing ECHO is answered exactly; whole-stream delivery gives byte-identical output. distinct = hash of request stream + handler script; all cases are non-trivial (hostile bytes or non-command values)"
+			return "case = one scripted connection, requests delivered one per chunk, in three rotating kinds: (toplevel) 1..5 client values of every RESP type at top level - status, error, integer, bulk, null bulk, empty/null array, null/non-bulk/nested command names - and command arrays whose name and arguments carry CR, LF, CRLF+forged frames and arbitrary bytes; (handler-result) a command whose handler call returns each message type with hostile payload, nil message, errors with hostile text, message+error, arrays with status/error elements, nested arrays, an array message built without an array; (example-store) hostile values written to the bundled example store and read back with every read command. Oracle: the whole output decodes under an independent strict RESP2 decoder with nothing left over; the bytes written between two consecutive would-block reads are exactly one frame (or none and the connection is closed); a trailing ECHO is answered exactly; whole-stream delivery gives byte-identical output; in a further run the reader stalls inside a seeded reply write for longer than any write deadline and then reads on (virtual time: the scripted transport cuts that write short iff the server armed a deadline) and what the client reads must still be complete frames. distinct = hash of request stream + handler script; all cases are non-trivial (hostile bytes or non-command values)"
 		},
 		Assumptions: []string{"integer frames are judged on framing only (a handler may put any CR/LF-free text into an integer message)"},
 		Setup: func(tier string, seed uint64) int {
